@@ -433,6 +433,47 @@ func runC17(c *Case) {
 				fail("open-error", desc+": "+err.Error())
 				return
 			}
+		case x < 95 && !h.dirty:
+			// a clone commits a change; the handle it was cloned from still names the version it
+			// stands for (Roots) - the clone then takes the handle's place
+			roots0, rerr := h.db.Roots()
+			cl, err := h.db.Clone(ctx)
+			if err != nil {
+				fail("clone-error", err.Error())
+				return
+			}
+			old := h.db
+			h.db = cl
+			v := fmt.Sprintf("v%d.%dc", hi, i)
+			desc = fmt.Sprintf("%s: clone.Set(@%d, %s, %s); clone.Commit(); Roots() of the original", h.name, t, k, v)
+			if err := h.db.Set(ctx, time.Unix(t, 0), k, v); err != nil {
+				fail("set-error", desc+": "+err.Error())
+				return
+			}
+			if everSet[k] == nil {
+				everSet[k] = map[string]bool{}
+			}
+			everSet[k][v] = true
+			nv := kvEntry{Val: v, T: t}
+			e, ok := h.state[k]
+			if ok {
+				nv = kvJoin1(nv, e)
+			}
+			if !ok || nv != e {
+				h.dirty = true
+			}
+			h.state[k] = nv
+			if err := commit(h); err != nil {
+				fail("commit-error", desc+": "+err.Error())
+				return
+			}
+			roots1, rerr1 := old.Roots()
+			c.Count("roots_after_clone_commit", 1)
+			if rerr == nil && (rerr1 != nil || fmt.Sprint(roots0) != fmt.Sprint(roots1)) {
+				fail("roots-changed-by-clone-commit", fmt.Sprintf("%s: Roots() of the original handle was %v before its clone committed and is %v (%v) afterwards", desc, roots0, roots1, rerr1))
+				return
+			}
+			old.Cancel()
 		default:
 			desc = h.name + ".Clone() replaces " + h.name
 			cl, err := h.db.Clone(ctx)
